@@ -481,6 +481,30 @@ def install2(T):
     Tensor.narrow_copy = lambda s_, dim, start, length: s_.narrow(dim, start, length).clone()
     T.narrow_copy = lambda t, dim, start, length: t.narrow(dim, start, length).clone()
 
+    # ---- axis shuffles (views, as in torch)
+    def movedim(t, source, destination):
+        return t._alias(np.moveaxis(t.a, source, destination))
+
+    def swapaxes(t, a0, a1):
+        return t._alias(np.swapaxes(t.a, a0, a1))
+
+    def flatten_range(t, start_dim=0, end_dim=-1):
+        nd = t.a.ndim
+        if nd == 0:
+            return t.reshape(1)
+        sd, ed = start_dim % nd, end_dim % nd
+        shp = list(t.a.shape)
+        return t.reshape(*(shp[:sd] + [builtins.int(np.prod(shp[sd:ed + 1]))] + shp[ed + 1:]))
+
+    for k_, f_ in dict(movedim=movedim, moveaxis=movedim, swapaxes=swapaxes, swapdims=swapaxes).items():
+        setattr(Tensor, k_, f_)
+        setattr(T, k_, f_)
+    Tensor.flatten = flatten_range
+    T.flatten = flatten_range
+    Tensor.ravel = lambda s_: flatten_range(s_)
+    T.ravel = lambda t: flatten_range(t)
+    Tensor.nelement = lambda s_: s_.numel()
+
     # ---- further foreach ops (out-of-place results are new tensors; in-place variants write through)
     def _lst(x, i):
         return x[i] if isinstance(x, (list, tuple)) else x
